@@ -13,6 +13,10 @@ types; Proofs/Msg/GeneralDecode.lean / GeneralEncode.lean prove that the special
 (`headerCode_eq_general_decode`, `headerCode_eq_general_encode` in Properties/C03.lean).  The definitions below are the
 same message functions as in Msg/Message.lean with the two header calls replaced by the general model; they have NO
 fragment restriction (a header field whose variant holds an array, a struct, a dict, a variant is decoded like any other).
+(What they share with Msg/Message.lean unchanged is `buildHeaders` / `wrapAttr`: the wrapper typing `ObjectPath(x)` /
+`Signature(x)` / `UInt32(x)` of `_marshal` is modelled for str / int values; on a parsed message that holds another value in
+`path` / `signature` / `reply_serial` / `unix_fds` - a known field sent with the wrong type - `remarshalG` answers
+`PyErr.other` like `remarshal`, where the code computes `str(x)` / `int(x)`.  Review 3, 3.2.)
 
   * `headerArgs`      - the Python list handed to `marshal.marshal` (`self.headers` is a list of `[code, hval]` lists);
   * `HeaderVals.toPy` - `hval` as `marshal.unmarshal` returns it: six ints and a list of `[code, value]` lists;
